@@ -61,13 +61,13 @@ theorem tableFrom_append (maps : List MapAdd) (pre rest : List (Nat × MapAdd)) 
   rw [this, List.foldl_append]
 
 /-- what the flush loop computes for one sample -/
-def flushOne (maps : List MapAdd) (u : USample) : Nat × OutSample :=
+def flushOne (pm maps : List MapAdd) (u : USample) : Nat × OutSample :=
   (u.th, { t := u.t, weight := 1, cpu := u.cpu,
-           frames := depthLimit depthN (convertStack maps u.stack) u.stack.length })
+           frames := depthLimit depthN (convertStack maps pm u.stack) u.stack.length })
 
-theorem flushBuffer_spec (maps : List MapAdd) (q : List (Nat × MapAdd)) (us : List USample)
+theorem flushBuffer_spec (pm maps : List MapAdd) (q : List (Nat × MapAdd)) (us : List USample)
     (hq : SortedQ q) (hu : us.Pairwise (fun a b => a.tmono ≤ b.tmono)) :
-    flushBuffer maps q us = us.map (fun u => flushOne (tableFrom maps q u.tmono) u) := by
+    flushBuffer pm maps q us = us.map (fun u => flushOne pm (tableFrom maps q u.tmono) u) := by
   induction us generalizing maps q with
   | nil => simp [flushBuffer]
   | cons u rest ih =>
@@ -151,8 +151,8 @@ theorem foldl_applyAdd_eq (cands acc : List MapAdd) :
     congr 1
     · apply List.filter_congr
       intro m _
-      simp only [overlaps]
-      rw [Bool.and_comm]
+      simp only [overlaps, Bool.not_or]
+      cases (cs.any (overlaps m)) <;> simp
     · congr 1
       by_cases h : cs.any (overlaps x) <;> simp [h]
 
@@ -161,7 +161,8 @@ theorem foldl_applyAdd_nil (cands : List MapAdd) : cands.foldl applyAdd [] = liv
 
 theorem covers_overlap {m r : MapAdd} {a : Nat} (h1 : covers m a = true) (h2 : covers r a = true) :
     overlaps m r = true := by
-  simp only [covers, overlaps, Bool.and_eq_true, decide_eq_true_eq] at *
+  simp only [covers, overlaps, Bool.and_eq_true, Bool.or_eq_true, decide_eq_true_eq] at *
+  left
   omega
 
 theorem go_eq_find (cands : List MapAdd) (a : Nat) :
@@ -199,10 +200,30 @@ theorem lookup_eq_resolveDecl (q : List (Nat × MapAdd)) (t a : Nat) :
   rw [go_eq_find, ← foldl_applyAdd_nil, List.foldl_map]
   rfl
 
+/-- perf-map level: the table built by adding the declared functions in file order, looked up, equals the
+declarative rule "last declared covering function that no later line displaced" -/
+theorem lookup_pm_eq_go (cands : List MapAdd) (a : Nat) :
+    lookupMap (cands.foldl applyAdd []) a = resolveDecl.go a cands := by
+  unfold lookupMap
+  rw [go_eq_find, foldl_applyAdd_nil]
+  rfl
+
+/-- the hierarchy lookup (regular libraries, then the perf map) equals the declarative `resolveH` -/
+theorem lookupH_eq_resolveH (q : List (Nat × MapAdd)) (t : Nat) (cands : List MapAdd) (a : Nat) :
+    lookupH (tableFrom [] q t) (cands.foldl applyAdd []) a = resolveH q t cands a := by
+  unfold lookupH resolveH
+  rw [lookup_eq_resolveDecl, lookup_pm_eq_go]
+  rfl
+
+theorem secondPass_eq_expect (q : List (Nat × MapAdd)) (t : Nat) (cands : List MapAdd) (f : SFrame) :
+    secondPass (tableFrom [] q t) (cands.foldl applyAdd []) f = expectInfo q t cands f := by
+  unfold secondPass expectInfo
+  simp only [lookupH_eq_resolveH]
+  rfl
+
 theorem convertFrame_eq_expect (q : List (Nat × MapAdd)) (t : Nat) (f : SFrame) :
     convertFrame (tableFrom [] q t) f = expectFrame q t f := by
   unfold convertFrame expectFrame
-  simp only [lookup_eq_resolveDecl]
-  rfl
+  exact congrArg Info.frame (secondPass_eq_expect q t [] f)
 
 end Conv
